@@ -14,7 +14,8 @@ import subprocess
 from vp import Stream, ENV
 
 RULE = ("groups = script (aux thread counts of successive broadcasts on one pool, growing and shrinking, 0..8 workers) x "
-        "panicking subset of calls x scheduler (shuttle random, PCT depth 2-3, bounded DFS with a budget of spurious park "
+        "panicking subset of calls (optionally the caller's call panics with a payload whose Drop panics, so that the "
+        "panic escapes from broadcast) x scheduler (shuttle random, PCT depth 2-3, bounded DFS with a budget of spurious park "
         "wake-ups) x seed; every DISTINCT global event trace of a group is one case (duplicates are counted in the "
         "histogram). Non-trivial = the script has a broadcast with >= 1 auxiliary thread; distinct by (group, trace index).")
 
@@ -66,6 +67,16 @@ def groups(tier, rng):
             s = "script=%s panics=%s" % (",".join(map(str, scr)), ",".join("%d.%d" % c for c in pan))
             gs.append(f"{s} sched=random seed={rng.randrange(1 << 30)} iters={it_r}")
             gs.append(f"{s} sched=pct{rng.choice([2, 3])} seed={rng.randrange(1 << 30)} iters={it_p}")
+    # the caller's call panics with a payload whose own Drop panics: the panic escapes from broadcast
+    # (legal after the wait loop); a worker is still running when the caller's call ends
+    for scr in ([1], [2, 1], [1, 1], [3, 1]) if quick else ([1], [2, 1], [1, 1], [3, 1], [2, 2, 2], [4, 1], [1, 5]):
+        for b in sorted({1, len(scr)}):
+            if scr[b - 1] >= 1:
+                pan = [c for c in _panic_subsets(scr, rng, 2)[1] if c != (b, 0)]
+                s = "script=%s panics=%s bombs=%d.0" % (",".join(map(str, scr)), ",".join("%d.%d" % c for c in pan), b)
+                gs.append(f"{s} sched=random seed={rng.randrange(1 << 30)} iters={it_r}")
+                gs.append(f"{s} sched=pct{rng.choice([2, 3])} seed={rng.randrange(1 << 30)} iters={it_p}")
+    gs.append("script=1 panics= bombs=1.0 sched=dfs seed=0 iters=100000 spur=1")
     # bounded DFS (exhaustive for the smallest cases)
     gs.append("script=1 panics= sched=dfs seed=0 iters=100000 spur=2")
     gs.append("script=1 panics=1.1 sched=dfs seed=0 iters=100000 spur=1")
